@@ -223,6 +223,76 @@ impl FixtureDatabase {
             .chain(args.kwonlyargs.iter())
     }
 
+    /// Record the usage of a fixture named inside a string literal (`usefixtures("name")`,
+    /// `pytestmark`, an indirect `parametrize("a, b", ...)`).
+    ///
+    /// The span is where the name itself stands in the literal's source text - found as a whole
+    /// word inside the literal's range - so that string prefixes (`r"..."`), triple quotes,
+    /// literals continued on a later line and several names in one string each get the
+    /// identifier's own range. When the name cannot be found in the source text (escape
+    /// sequences, implicit concatenation) the range between the quotes of a plain one-line
+    /// literal is used, as before.
+    fn record_string_fixture_usage(
+        &self,
+        file_path: &Path,
+        content: &str,
+        line_index: &[usize],
+        fixture_name: String,
+        range: rustpython_parser::text_size::TextRange,
+    ) {
+        let lit_start = range.start().to_usize();
+        let lit_end = range.end().to_usize().min(content.len());
+        let is_word = |c: char| c.is_alphanumeric() || c == '_';
+        // A name is looked for on one line: with a line break in it there is no such place
+        let searchable = !fixture_name.contains('\n');
+        let found = content
+            .get(lit_start..lit_end)
+            .filter(|_| searchable)
+            .and_then(|literal| {
+                // Start at the opening quote, so that a prefix letter is never taken for the name
+                let body_at = literal.find(['"', '\'']).unwrap_or(0);
+                let body = &literal[body_at..];
+                body.match_indices(fixture_name.as_str())
+                    .find_map(|(at, _)| {
+                        let before = body[..at].chars().next_back();
+                        let after = body[at + fixture_name.len()..].chars().next();
+                        if before.is_some_and(is_word) || after.is_some_and(is_word) {
+                            None
+                        } else {
+                            Some(lit_start + body_at + at)
+                        }
+                    })
+            });
+
+        let (usage_line, start_char, end_char) = match found {
+            Some(offset) => {
+                let start_char = self.get_char_position_from_offset(offset, line_index);
+                (
+                    self.get_line_from_offset(offset, line_index),
+                    start_char,
+                    start_char + fixture_name.len(),
+                )
+            }
+            None => {
+                let start_char = self
+                    .get_char_position_from_offset(lit_start, line_index)
+                    .saturating_add(1);
+                // The literal may end on a later line: never report an end before the start
+                let end_char = self
+                    .get_char_position_from_offset(range.end().to_usize(), line_index)
+                    .saturating_sub(1)
+                    .max(start_char);
+                (
+                    self.get_line_from_offset(lit_start, line_index),
+                    start_char,
+                    end_char,
+                )
+            }
+        };
+
+        self.record_fixture_usage(file_path, fixture_name, usage_line, start_char, end_char);
+    }
+
     /// Helper to record a fixture usage in the database.
     /// Reduces code duplication across multiple call sites.
     /// Also maintains usage_by_fixture reverse index for efficient reference lookups.
@@ -297,7 +367,12 @@ impl FixtureDatabase {
                 |target| matches!(target, Expr::Name(name) if name.id.as_str() == "pytestmark"),
             );
             if is_pytestmark {
-                self.visit_pytestmark_assignment(Some(&assign.value), file_path, line_index);
+                self.visit_pytestmark_assignment(
+                    Some(&assign.value),
+                    file_path,
+                    content,
+                    line_index,
+                );
             }
         }
 
@@ -311,6 +386,7 @@ impl FixtureDatabase {
                 self.visit_pytestmark_assignment(
                     ann_assign.value.as_deref(),
                     file_path,
+                    content,
                     line_index,
                 );
             }
@@ -322,24 +398,16 @@ impl FixtureDatabase {
             for decorator in &class_def.decorator_list {
                 let usefixtures = decorators::extract_usefixtures_names(decorator);
                 for (fixture_name, range) in usefixtures {
-                    let usage_line =
-                        self.get_line_from_offset(range.start().to_usize(), line_index);
-                    let start_char =
-                        self.get_char_position_from_offset(range.start().to_usize(), line_index);
-                    let end_char =
-                        self.get_char_position_from_offset(range.end().to_usize(), line_index);
-
                     info!(
-                        "Found usefixtures usage on class: {} at {:?}:{}:{}",
-                        fixture_name, file_path, usage_line, start_char
+                        "Found usefixtures usage on class: {} at {:?}",
+                        fixture_name, file_path
                     );
-
-                    self.record_fixture_usage(
+                    self.record_string_fixture_usage(
                         file_path,
+                        content,
+                        line_index,
                         fixture_name,
-                        usage_line,
-                        start_char + 1,
-                        end_char - 1,
+                        range,
                     );
                 }
             }
@@ -377,23 +445,16 @@ impl FixtureDatabase {
         for decorator in decorator_list {
             let usefixtures = decorators::extract_usefixtures_names(decorator);
             for (fixture_name, range) in usefixtures {
-                let usage_line = self.get_line_from_offset(range.start().to_usize(), line_index);
-                let start_char =
-                    self.get_char_position_from_offset(range.start().to_usize(), line_index);
-                let end_char =
-                    self.get_char_position_from_offset(range.end().to_usize(), line_index);
-
                 info!(
-                    "Found usefixtures usage on function: {} at {:?}:{}:{}",
-                    fixture_name, file_path, usage_line, start_char
+                    "Found usefixtures usage on function: {} at {:?}",
+                    fixture_name, file_path
                 );
-
-                self.record_fixture_usage(
+                self.record_string_fixture_usage(
                     file_path,
+                    content,
+                    line_index,
                     fixture_name,
-                    usage_line,
-                    start_char + 1,
-                    end_char - 1,
+                    range,
                 );
             }
         }
@@ -402,23 +463,16 @@ impl FixtureDatabase {
         for decorator in decorator_list {
             let indirect_fixtures = decorators::extract_parametrize_indirect_fixtures(decorator);
             for (fixture_name, range) in indirect_fixtures {
-                let usage_line = self.get_line_from_offset(range.start().to_usize(), line_index);
-                let start_char =
-                    self.get_char_position_from_offset(range.start().to_usize(), line_index);
-                let end_char =
-                    self.get_char_position_from_offset(range.end().to_usize(), line_index);
-
                 info!(
-                    "Found parametrize indirect fixture usage: {} at {:?}:{}:{}",
-                    fixture_name, file_path, usage_line, start_char
+                    "Found parametrize indirect fixture usage: {} at {:?}",
+                    fixture_name, file_path
                 );
-
-                self.record_fixture_usage(
+                self.record_string_fixture_usage(
                     file_path,
+                    content,
+                    line_index,
                     fixture_name,
-                    usage_line,
-                    start_char + 1,
-                    end_char - 1,
+                    range,
                 );
             }
         }
@@ -663,6 +717,7 @@ impl FixtureDatabase {
         &self,
         value: Option<&Expr>,
         file_path: &PathBuf,
+        content: &str,
         line_index: &[usize],
     ) {
         let Some(value) = value else {
@@ -671,23 +726,11 @@ impl FixtureDatabase {
 
         let usefixtures = decorators::extract_usefixtures_from_expr(value);
         for (fixture_name, range) in usefixtures {
-            let usage_line = self.get_line_from_offset(range.start().to_usize(), line_index);
-            let start_char =
-                self.get_char_position_from_offset(range.start().to_usize(), line_index);
-            let end_char = self.get_char_position_from_offset(range.end().to_usize(), line_index);
-
             info!(
-                "Found usefixtures usage via pytestmark assignment: {} at {:?}:{}:{}",
-                fixture_name, file_path, usage_line, start_char
+                "Found usefixtures usage via pytestmark assignment: {} at {:?}",
+                fixture_name, file_path
             );
-
-            self.record_fixture_usage(
-                file_path,
-                fixture_name,
-                usage_line,
-                start_char.saturating_add(1),
-                end_char.saturating_sub(1),
-            );
+            self.record_string_fixture_usage(file_path, content, line_index, fixture_name, range);
         }
     }
 }
